@@ -199,6 +199,9 @@ func accumulateStateNeeded(result *StateNeeded, eventType string, sender spec.Se
 		if content.Membership == spec.Join || content.Membership == spec.Knock || content.Membership == spec.Invite {
 			result.JoinRules = true
 		}
+		if content.AuthorizedVia != "" {
+			result.Member = append(result.Member, content.AuthorizedVia)
+		}
 		if content.ThirdPartyInvite != nil {
 			token, tokErr := thirdPartyInviteToken(content.ThirdPartyInvite)
 			if tokErr != nil {
@@ -206,9 +209,6 @@ func accumulateStateNeeded(result *StateNeeded, eventType string, sender spec.Se
 				return
 			}
 			result.ThirdPartyInvite = append(result.ThirdPartyInvite, token)
-		}
-		if content.AuthorizedVia != "" {
-			result.Member = append(result.Member, content.AuthorizedVia)
 		}
 	default:
 		// All other events need:
@@ -1048,7 +1048,13 @@ func (a *allowerContext) newMembershipAllower(authEvents AuthEventProvider, even
 	}
 	// If this event comes from a third_party_invite, we need to check it against the original event.
 	if m.newMember.ThirdPartyInvite != nil && m.newMember.Membership == spec.Invite {
-		token := m.newMember.ThirdPartyInvite.Signed.Token
+		// StateNeededForAuth names no m.room.third_party_invite event for an empty token, so the
+		// check must not read one either: reject, as accumulateStateNeeded promises.
+		var token string
+		if token, err = thirdPartyInviteToken(m.newMember.ThirdPartyInvite); err != nil {
+			err = errorf("could not get third-party token: %s", err)
+			return
+		}
 		if m.thirdPartyInvite, err = NewThirdPartyInviteContentFromAuthEvents(authEvents, token); err != nil {
 			return
 		}
